@@ -210,6 +210,19 @@ def gen_c13(tier, rng):
         for label, X, Y, za, zb in cases:
             yield ('g1-' + label, 'g1 add %s %s' % (S.g1_jac(X, za), S.g1_jac(Y, zb)), None)
             yield ('g1-sub-' + label, 'g1 sub %s %s' % (S.g1_jac(X, za), S.g1_jac(Y, zb)), None)
+        # representations whose STORED Z limbs are a small integer (Z = j/R: limbs [j,0,0,0] — the integer one, not the field one),
+        # [0,1,0,0], or -1: as left and as right operand, with themselves, their negatives, under doubling / multiplication / encoding
+        rinv = pow(R, -1, P)
+        for zs in (rinv, 2 * rinv % P, (1 << 64) * rinv % P, P - 1, (P - 1) * rinv % P):
+            for lhs, rhs in ((S.g1_jac(B, z2), S.g1_jac(A, zs)), (S.g1_jac(A, zs), S.g1_jac(B, z2)), (S.g1_jac(A, zs), S.g1_jac(A, zs)),
+                             (S.g1_jac(A, z1), S.g1_jac(A, zs)), (S.g1_jac(A, zs), S.g1_jac(S.g1_neg(A), zs)), (S.g1_jac(A, zs), S.g1_jac(S.g1_neg(A), z1))):
+                yield ('g1-special-stored-Z', 'g1 add %s %s' % (lhs, rhs), None)
+                yield ('g1-special-stored-Z', 'g1 sub %s %s' % (lhs, rhs), None)
+            yield ('g1-special-stored-Z', 'g1 dbl %s' % S.g1_jac(A, zs), None)
+            yield ('g1-special-stored-Z', 'g1 mul %s %s' % (S.g1_jac(A, zs), H(rng.getrandbits(64))), None)
+            yield ('g1-special-stored-Z', 'g1 bytes %s' % S.g1_jac(A, zs), None)
+            yield ('g1-special-stored-Z', 'g1 oncurve %s' % S.g1_jac(A, zs), None)
+            yield ('g1-special-stored-Z', 'g1 eq %s %s' % (S.g1_jac(A, zs), S.g1_jac(A, z1)), None)
             yield ('g1-eq-' + label, 'g1 eq %s %s' % (S.g1_jac(X, za), S.g1_jac(Y, zb)), None) if X is not None and Y is not None else ('g1-dbl', 'g1 dbl %s' % S.g1_jac(A, z1), None)
         yield ('g1-dbl', 'g1 dbl %s' % S.g1_jac(A, z1), None)
         yield ('g1-neg', 'g1 neg %s' % S.g1_jac(A, z1), None)
@@ -273,6 +286,14 @@ def gen_c13(tier, rng):
         yield ('g2-eq-shared-y', 'g2eq %s %s sharey' % (S.g2_jac(A, z1), S.g2_jac((S.f2scal(w_, A[0]), A[1]), z2)), None)
         yield ('g2-eq-shared-nothing', 'g2eq %s %s' % (S.g2_jac(A, z1), S.g2_jac((S.f2scal(w_, A[0]), S.f2neg(A[1])), z2)), None)
         yield ('g2-raw', 'g2_raw add %s %s' % (S.g2_jac(A, z1), S.g2_jac(B, z2)), None)
+        # Z in special positions of Fp2: one component exactly one / the integer one in the stored limbs / zero / -1, the other arbitrary
+        rinv2 = pow(R, -1, P)
+        for zs in ((1, rng.randrange(1, P)), (rinv2, 0), (rinv2, rng.randrange(1, P)), (0, 1), (0, rinv2), (P - 1, 0), (rng.randrange(1, P), 1), (2 * rinv2 % P, 0)):
+            for lhs, rhs in ((S.g2_jac(B, z2), S.g2_jac(A, zs)), (S.g2_jac(A, zs), S.g2_jac(B, z2)), (S.g2_jac(A, zs), S.g2_jac(A, z1)), (S.g2_jac(A, zs), S.g2_jac(S.g2_neg(A), zs))):
+                yield ('g2-special-stored-Z', 'g2 add %s %s' % (lhs, rhs), None)
+                yield ('g2-special-stored-Z', 'g2 addfull %s %s' % (lhs, rhs), None)
+            yield ('g2-special-stored-Z', 'g2 dbl %s' % S.g2_jac(A, zs), None)
+            yield ('g2-special-stored-Z', 'g2 mul %s %s' % (S.g2_jac(A, zs), H(rng.getrandbits(40))), None)
     for j in (range(1, 201) if tier == 'thorough' else list(range(1, 80, 3)) + [74, 10, 37, 64, 128]):
         yield ('g1-gmul-near-order', 'g1 gmul %s' % H(N - j), None)
         if j % 2 == 0 or tier == 'thorough':
@@ -299,8 +320,13 @@ def gen_c12(tier, rng):
     # Jacobian Z of Q in special positions of Fp2: purely "imaginary" c*u, real, and both components set
     B = S.g2_mul(rs(rng), S.P2)
     A = S.g1_mul(rs(rng), S.P1)
-    for zq in ((0, 1), (0, rng.randrange(1, P)), (rng.randrange(1, P), 0), (P - 1, 0), (0, P - 1)):
+    rinv = pow(R, -1, P)
+    for zq in ((0, 1), (0, rng.randrange(1, P)), (rng.randrange(1, P), 0), (P - 1, 0), (0, P - 1),
+               # one component exactly 1 (or the integer one in the stored limbs), the other arbitrary: "affine" tests that look at c0 only
+               (1, rng.randrange(1, P)), (1, 1), (rng.randrange(2, P), 1), (rinv, 0), (rinv, rng.randrange(1, P)), (rng.randrange(1, P), rinv), (1, P - 1)):
         yield ('pairing-Q-Z-special', 'pairing %s %s' % (S.g2_jac(B, zq), S.g1_jac(A, 1)), None)
+    for zp in (rinv, 2 * rinv % P, P - 1, (1 << 64) * rinv % P):
+        yield ('pairing-P-Z-special', 'pairing %s %s' % (S.g2_jac(B, (1, 0)), S.g1_jac(A, zp)), None)
     # calls one after another on one thread: the value depends on the two points only, not on what was evaluated before
     z = (rng.randrange(1, P), rng.randrange(1, P))
     q1 = S.g2_jac(B, z)
